@@ -257,7 +257,69 @@ pub fn eval(case: &Case, zod: bool, machinery: &mut Vec<String>, accepted: &mut 
     Some(v)
 }
 
+pub const REGEN_HISTORIES: [&str; 7] = ["zod-then-none", "none-then-zod", "fields-and-channel-removed", "fields-and-channel-removed-zod", "events-removed", "other-project", "other-project-2"];
+
+/// Generate one project, then another (smaller, or in the other mode) into the same output
+/// directory through the real binary / build path; every file left must still parse.
+pub fn regenerate_case(label: &str, build: bool) -> Option<Violation> {
+    use crate::projects;
+    use crate::sbx::{self, FileCfg, RunOpts, Seam};
+    let b0 = projects::base_b0();
+    let smaller = |names: &[&str]| {
+        let mut p = b0.clone();
+        for n in names {
+            if let Some(e) = projects::edits_b0().into_iter().find(|e| &e.name == n) {
+                p = e.apply(&p).unwrap_or(p);
+            }
+        }
+        p
+    };
+    let (first, zod1, second, zod2) = match label {
+        "zod-then-none" => (b0.clone(), true, b0.clone(), false),
+        "none-then-zod" => (b0.clone(), false, b0.clone(), true),
+        "fields-and-channel-removed" => (b0.clone(), false, smaller(&["field_remove", "remove_channel", "validator_remove"]), false),
+        "fields-and-channel-removed-zod" => (b0.clone(), true, smaller(&["field_remove", "remove_channel", "validator_remove"]), true),
+        "events-removed" => (b0.clone(), true, smaller(&["event_remove"]), true),
+        "other-project" => (b0.clone(), true, projects::base_b1(), false),
+        _ => (projects::base_b2(), false, projects::base_b1(), false),
+    };
+    let seam = if build { Seam::Build } else { Seam::Cli };
+    let sb = crate::run::Sandbox::new();
+    sbx::write_sources(&sb.root, &first, &FileCfg { zod: zod1, ..Default::default() });
+    let r1 = sbx::run_generate(&sb.root, seam, &RunOpts::default());
+    let cfg2 = FileCfg { zod: zod2, ..Default::default() };
+    sbx::write_sources(&sb.root, &second, &cfg2);
+    let r2 = sbx::run_generate(&sb.root, seam, &RunOpts::default());
+    if !r1.success() || !r2.success() {
+        return None;
+    }
+    let files = crate::run::read_out_dir(&sbx::out_dir(&sb.root, &cfg2));
+    let mut bad = vec![];
+    for (name, content) in &files {
+        if !name.ends_with(".ts") {
+            continue;
+        }
+        if let Err(e) = ts::parse_module(content) {
+            if e.kind == ParseErrorKind::Syntax {
+                bad.push(format!("{} at {}:{}:{} near `{}`", e.msg, name, e.line, e.col, content.lines().nth(e.line.saturating_sub(1)).unwrap_or("").trim()));
+            }
+        }
+    }
+    if bad.is_empty() {
+        return None;
+    }
+    Some(
+        Violation::new("C01", "syntax-error", format!("regeneration history {} via {}: {}", label, seam.name(), bad.join(" ; ")), json!({"regenerate": label, "build": build}))
+            .field("kind", "regenerate-over-previous-output")
+            .field("history", label.to_string())
+            .field("seam", seam.name()),
+    )
+}
+
 pub fn replay(case: &Value) -> Vec<Violation> {
+    if let Some(label) = case["regenerate"].as_str() {
+        return regenerate_case(label, case["build"].as_bool().unwrap_or(false)).into_iter().collect();
+    }
     let Ok(c) = serde_json::from_value::<Case>(case["case"].clone()) else { return vec![] };
     let zod = case["zod"].as_bool().unwrap_or(false);
     let mut m = vec![];
@@ -412,61 +474,10 @@ pub fn run(tier: Tier) -> CheckResult {
 
     // --- regeneration over the output of a larger project / the other mode (real binary): what is
     // left in the output directory must still be whole files
-    {
-        use crate::projects;
-        use crate::sbx::{self, FileCfg, RunOpts, Seam};
-        let b0 = projects::base_b0();
-        let smaller = |names: &[&str]| {
-            let mut p = b0.clone();
-            for n in names {
-                if let Some(e) = projects::edits_b0().into_iter().find(|e| &e.name == n) {
-                    p = e.apply(&p).unwrap_or(p);
-                }
-            }
-            p
-        };
-        let histories: Vec<(&str, gen::Project, bool, gen::Project, bool)> = vec![
-            ("zod-then-none", b0.clone(), true, b0.clone(), false),
-            ("none-then-zod", b0.clone(), false, b0.clone(), true),
-            ("fields-and-channel-removed", b0.clone(), false, smaller(&["field_remove", "remove_channel", "validator_remove"]), false),
-            ("fields-and-channel-removed-zod", b0.clone(), true, smaller(&["field_remove", "remove_channel", "validator_remove"]), true),
-            ("events-removed", b0.clone(), true, smaller(&["event_remove"]), true),
-            ("other-project", b0.clone(), true, projects::base_b1(), false),
-            ("other-project-2", projects::base_b2(), false, projects::base_b1(), false),
-        ];
-        for (label, first, zod1, second, zod2) in histories {
-            for seam in [Seam::Cli, Seam::Build] {
-                let sb = crate::run::Sandbox::new();
-                sbx::write_sources(&sb.root, &first, &FileCfg { zod: zod1, ..Default::default() });
-                let r1 = sbx::run_generate(&sb.root, seam, &RunOpts::default());
-                let cfg2 = FileCfg { zod: zod2, ..Default::default() };
-                sbx::write_sources(&sb.root, &second, &cfg2);
-                let r2 = sbx::run_generate(&sb.root, seam, &RunOpts::default());
-                evaluations += 2;
-                if !r1.success() || !r2.success() {
-                    continue;
-                }
-                let files = crate::run::read_out_dir(&sbx::out_dir(&sb.root, &cfg2));
-                let mut bad = vec![];
-                for (name, content) in &files {
-                    if !name.ends_with(".ts") {
-                        continue;
-                    }
-                    if let Err(e) = ts::parse_module(content) {
-                        if e.kind == ParseErrorKind::Syntax {
-                            bad.push(format!("{} at {}:{}:{} near `{}`", e.msg, name, e.line, e.col, content.lines().nth(e.line.saturating_sub(1)).unwrap_or("").trim()));
-                        }
-                    }
-                }
-                if !bad.is_empty() {
-                    res.violations.push(
-                        Violation::new("C01", "syntax-error", format!("regeneration history {} via {}: {}", label, seam.name(), bad.join(" ; ")), json!({"regenerate": label, "seam": seam.name()}))
-                            .field("kind", "regenerate-over-previous-output")
-                            .field("history", label)
-                            .field("seam", seam.name()),
-                    );
-                }
-            }
+    for label in REGEN_HISTORIES {
+        for build in [false, true] {
+            evaluations += 2;
+            res.violations.extend(regenerate_case(label, build));
         }
     }
 
